@@ -2,7 +2,7 @@
    handle is C08's model, the "they do return" half is progress, C03).
    Statements only; model coq/SliceJob.v (see C16.v for the conventions). *)
 From Coq Require Import List Arith.
-From VQ Require Import SliceJob SliceJobProofs.
+From VQ Require Import SliceJob SliceJobProofs SliceWake SliceWakeProofs.
 Import ListNotations.
 
 (* Wait returns (for any caller, any number of times) only when the job is Closed, and a job
@@ -21,3 +21,12 @@ Theorem C05_wait_stays_enabled :
                    forall t', jstep s' (EWait t') = Some s'.
 Proof. exact wait_stays_enabled. Qed.
 Print Assumptions C05_wait_stays_enabled.
+
+(* "They do return": a queued job's handle completes because the job is dispatched — whenever
+   the event loop is parked while the worker is running, has a free slot and something is
+   pending, a signal is buffered or some thread (a submitter, or the goroutine that has just
+   released a slot) still owes one (coq/SliceWake.v; the statement of C03). *)
+Theorem C05_freed_slot_is_announced :
+  forall s, KReachable s -> kparked s = true -> guard s = true -> ksig s = true \/ kowed s >= 1.
+Proof. exact no_lost_wakeup. Qed.
+Print Assumptions C05_freed_slot_is_announced.
